@@ -513,3 +513,117 @@ Proof.
   destruct (negb (length (aa_iv a) =? 16)); [reflexivity|].
   destruct (aa_mode a); [destruct (_ mod 16 =? 0)|]; reflexivity.
 Qed.
+
+(* ---- the package API with the FIPS-197 cipher: the Section hypotheses are discharged
+   by AesProofs.aes_cipher_block / aes_inv_cipher_cipher *)
+Lemma aesm_new_cipher_inv key opts c :
+  aesm_new_cipher key opts = Ok c ->
+  aes_valid_key_len (length key) = true /\
+  ac_rks c = aes_key_schedule key /\ ac_args c = aesm_args_of opts.
+Proof.
+  unfold aesm_new_cipher. destruct (aes_valid_key_len (length key)); [|discriminate].
+  intros H. inversion H. subst c. auto.
+Qed.
+
+Section Api.
+  Variables (key : list N) (opts : list aesm_option) (c : aesm_cipher).
+  Hypothesis Hnew : aesm_new_cipher key opts = Ok c.
+  Hypothesis Hkey : aess_bytes key.
+
+  Let E := aes_encrypt_block key.
+  Let D := aes_decrypt_block key.
+
+  Lemma aesm_api_E_ok : forall b, aess_block b -> aess_block (E b).
+  Proof.
+    intros b Hb. destruct (aesm_new_cipher_inv _ _ _ Hnew) as [Hv _].
+    apply aes_cipher_block; assumption.
+  Qed.
+
+  Lemma aesm_api_DE : forall b, aess_block b -> D (E b) = b.
+  Proof.
+    intros b Hb. destruct (aesm_new_cipher_inv _ _ _ Hnew) as [Hv _].
+    apply aes_inv_cipher_cipher; assumption.
+  Qed.
+
+  Lemma aesm_api_encrypt_eq v s : aesm_api_encrypt v c s = aesm_encrypt E v (aesm_args_of opts) s.
+  Proof.
+    destruct (aesm_new_cipher_inv _ _ _ Hnew) as [_ [Hr Ha]].
+    unfold aesm_api_encrypt, E, aes_encrypt_block. rewrite Hr, Ha. reflexivity.
+  Qed.
+
+  Lemma aesm_api_decrypt_eq s : aesm_api_decrypt c s = aesm_decrypt E D (aesm_args_of opts) s.
+  Proof.
+    destruct (aesm_new_cipher_inv _ _ _ Hnew) as [_ [Hr Ha]].
+    unfold aesm_api_decrypt, E, D, aes_encrypt_block, aes_decrypt_block. rewrite Hr, Ha. reflexivity.
+  Qed.
+
+  Lemma aesm_api_roundtrip_cbc v s :
+    aa_mode (aesm_args_of opts) = AesmCBC -> aess_block (aa_iv (aesm_args_of opts)) ->
+    aesm_slice_ok s = true -> aess_bytes (asl_arr s) ->
+    exists ct, fst (aesm_api_encrypt v c s) = Ok ct /\
+               length ct = 16 * (length (aesm_data s) / 16 + 1) /\
+               forall s', aesm_data s' = ct -> fst (aesm_api_decrypt c s') = Ok (aesm_data s).
+  Proof.
+    intros Hm Hiv Hs Hb. rewrite aesm_api_encrypt_eq.
+    destruct (aesm_roundtrip_cbc E D aesm_api_E_ok aesm_api_DE v _ s Hm Hiv Hs Hb) as [ct [H1 [H2 H3]]].
+    exists ct. split; [exact H1|]. split; [exact H2|].
+    intros s' Hs'. rewrite aesm_api_decrypt_eq. apply H3, Hs'.
+  Qed.
+
+  Lemma aesm_api_roundtrip_cfb v s :
+    aa_mode (aesm_args_of opts) = AesmCFB -> aess_block (aa_iv (aesm_args_of opts)) ->
+    aess_bytes (asl_arr s) ->
+    exists ct, fst (aesm_api_encrypt v c s) = Ok ct /\
+               length ct = length (aesm_data s) /\
+               forall s', aesm_data s' = ct -> fst (aesm_api_decrypt c s') = Ok (aesm_data s).
+  Proof.
+    intros Hm Hiv Hb. rewrite aesm_api_encrypt_eq.
+    destruct (aesm_roundtrip_cfb E D aesm_api_E_ok aesm_api_DE v _ s Hm Hiv Hb) as [ct [H1 [H2 H3]]].
+    exists ct. split; [exact H1|]. split; [exact H2|].
+    intros s' Hs'. rewrite aesm_api_decrypt_eq. apply H3, Hs'.
+  Qed.
+
+  Lemma aesm_api_cbc_is_standard v s :
+    aa_mode (aesm_args_of opts) = AesmCBC -> aess_block (aa_iv (aesm_args_of opts)) ->
+    aesm_slice_ok s = true -> aess_bytes (asl_arr s) ->
+    exists ps cs,
+      concat ps = aess_pkcs7 (aesm_data s) /\ aess_full_blocks ps /\
+      aess_cbc (aes_encrypt_block key) (aa_iv (aesm_args_of opts)) ps cs /\
+      fst (aesm_api_encrypt v c s) = Ok (concat cs) /\
+      length (concat cs) = 16 * (length (aesm_data s) / 16 + 1).
+  Proof.
+    intros Hm Hiv Hs Hb. rewrite aesm_api_encrypt_eq.
+    exact (aesm_cbc_is_standard E D aesm_api_E_ok aesm_api_DE v _ s Hm Hiv Hs Hb).
+  Qed.
+
+  Lemma aesm_api_cfb_is_standard v s :
+    aa_mode (aesm_args_of opts) = AesmCFB -> aess_block (aa_iv (aesm_args_of opts)) ->
+    aess_bytes (asl_arr s) ->
+    exists ps cs,
+      concat ps = aesm_data s /\ aess_segments ps /\
+      aess_cfb (aes_encrypt_block key) (aa_iv (aesm_args_of opts)) ps cs /\
+      fst (aesm_api_encrypt v c s) = Ok (concat cs) /\
+      length (concat cs) = length (aesm_data s).
+  Proof.
+    intros Hm Hiv Hb. rewrite aesm_api_encrypt_eq.
+    exact (aesm_cfb_is_standard E D aesm_api_E_ok aesm_api_DE v _ s Hm Hiv Hb).
+  Qed.
+End Api.
+
+Lemma aesm_api_untouched c s :
+  snd (aesm_api_encrypt AesmFixed c s) = asl_arr s /\ snd (aesm_api_decrypt c s) = asl_arr s.
+Proof. split; [apply aesm_encrypt_untouched | apply aesm_decrypt_untouched]. Qed.
+
+Lemma aesm_api_pure v c s1 s2 :
+  aesm_data s1 = aesm_data s2 -> asl_len s1 = asl_len s2 ->
+  fst (aesm_api_encrypt v c s1) = fst (aesm_api_encrypt v c s2) /\
+  fst (aesm_api_decrypt c s1) = fst (aesm_api_decrypt c s2).
+Proof.
+  intros Hd Hl. split; [apply aesm_encrypt_pure; assumption | apply aesm_decrypt_pure; assumption].
+Qed.
+
+(* mode and IV selection: options are applied left to right; the last mode option and the
+   last non-empty IV win; defaults CBC and 00 01 .. 0f *)
+Lemma aesm_args_of_snoc opts o :
+  aesm_args_of (opts ++ [o]) = aesm_apply_option (aesm_args_of opts) o.
+Proof. unfold aesm_args_of. rewrite fold_left_app. reflexivity. Qed.
